@@ -153,4 +153,20 @@ theorem census_conc_files_and_counts : Census.concFiles = [
   ("lib/syntax/syntax.go", 5)
 ] := rfl
 
+/-- **known findings that hang on concurrency sites**: (site, key of known_findings.jsonl).  `journal.FromModelStream` is the single
+consumer that appends the directives of all files per day and kind in ARRIVAL order; what is neither sorted afterwards nor summed exactly
+shows that order.  The site has to be in the census still: when it changes, this list has to be looked at again. -/
+def siteFindings : List (Site × String) := [
+  -- price / open / balance / close directives of one date from different files are printed in arrival order
+  (("lib/journal/journal.go", "FromModelStream", "cpr", "-", "cpr.ForEach in closure"),
+   "print-same-day-directives-of-different-files-in-arrival-order"),
+  -- a day's prices reach Prices.Insert in arrival order and the last quote of a pair wins
+  (("lib/journal/journal.go", "FromModelStream", "cpr", "-", "cpr.ForEach in closure"),
+   "valued-reports-same-day-requote-across-files"),
+  -- the day's transactions reach portfolio returns (no Sort stage) in arrival order
+  (("lib/journal/journal.go", "FromModelStream", "cpr", "-", "cpr.ForEach in closure"),
+   "returns-ill-conditioned-period-float-sum-in-arrival-order")]
+
+theorem siteFindings_in_census : siteFindings.all (fun x => Census.concAll.contains x.1) = true := by decide +kernel
+
 end Knut.FactsAgree.C06Conc
